@@ -264,8 +264,15 @@ def _helper_returned_index(ctx, p, fn, idx):
     return c, (c[2][cpos - 1] if cpos else None), pu
 
 
+def _branch_helpers(p):
+    """private helpers of the planner that return the states of one branch as a plain vector (`fn branch(tree, idx) -> Vec<S>`)"""
+    return {b.path: b for b in p['methods'] if 'Vec<S' in (b.j.get('ret_ty') or '') and not b.impl_trait and b.kind == 'AssocFn' and
+            any(b.local_ty(i) == 'usize' for i in range(1, b.arg_count + 1))}
+
+
 def _goal(ctx, p, r_goal):
-    exts = _extractors(p)
+    exts = dict(_branch_helpers(p))
+    exts.update(_extractors(p))
     gqs = P.goal_queries(ctx, p)
     solves = [b for b in p['methods'] if b.name == 'solve' and b.impl_trait]
     for b in solves:
@@ -455,11 +462,14 @@ def _flag_selects(fn, ob, cont):
     return False
 
 
-def _nonempty(ctx, p, r_ne):
-    for path, b in _extractors(p).items():
+SHRINKERS = ('clear', 'truncate', 'pop', 'drain', 'retain', 'remove', 'swap_remove', 'split_off', 'dedup', 'take')
+
+
+def _body_nonempty(ctx, b):
+    """the vector of states the body builds has at least one element (shapes (a)-(c) below)"""
+    if True:
         fn = ctx.fn(b)
         ok = False
-        why = 'cannot show that the extracted path has at least one state'
         # (a) a non-empty literal vec![x]
         for bi, blk in enumerate(b.blocks):
             if blk['cleanup']:
@@ -509,6 +519,20 @@ def _nonempty(ctx, p, r_ne):
                             all(x[0] == 'agg' and x[2] == 'Some' for x in q[2][0]):
                         ok = True
                     break
+        return ok
+
+
+def _nonempty(ctx, p, r_ne):
+    for path, b in _extractors(p).items():
+        why = 'cannot show that the extracted path has at least one state'
+        ok = _body_nonempty(ctx, b)
+        # (d) the walk lives in one helper of the planner that returns the vector of states; the extractor only reorders it
+        if not ok:
+            helpers = [ctx.core.body(t['func'].get('path') or '') for _, t in b.calls()]
+            helpers = [h for h in helpers if h is not None and h in p['methods'] and 'Vec<' in (h.j.get('ret_ty') or '')]
+            shrinks = [t for _, t in b.calls() if (t['func'].get('path') or '').rsplit('::', 1)[-1] in SHRINKERS]
+            if len(helpers) == 1 and not shrinks and not ctx.fn(b).loops() and _body_nonempty(ctx, helpers[0]):
+                ok = True
         r_ne.inst('%s returns a non-empty path' % path, ok=ok, site=b.loc(0))
         if not ok:
             r_ne.violations.append(Violation('C02', 'C02.nonempty', path, 'empty', why, loc=b.loc(0)))
